@@ -75,7 +75,7 @@ pub struct Manager {
     received: AtomicBool,
 
     #[cfg(feature = "graceful-shutdown")]
-    wakers: std::cell::UnsafeCell<std::sync::Mutex<WakerList>>,
+    wakers: std::sync::Mutex<WakerList>,
 
     #[cfg(feature = "graceful-shutdown")]
     inititate_channel: (WatchSender<()>, WatchReceiver<()>),
@@ -111,9 +111,7 @@ impl Manager {
                 connections: AtomicIsize::new(0),
                 received: AtomicBool::new(false),
 
-                wakers: std::cell::UnsafeCell::new(std::sync::Mutex::new(WakerList::new(
-                    _capacity,
-                ))),
+                wakers: std::sync::Mutex::new(WakerList::new(_capacity)),
 
                 inititate_channel: watch_channel(()),
                 finished_channel: (Arc::new(channel.0), channel.1),
@@ -135,7 +133,7 @@ impl Manager {
         AcceptManager {
             #[cfg(feature = "graceful-shutdown")]
             index: {
-                let mut lock = unsafe { &*self.wakers.get() }.lock().unwrap();
+                let mut lock = self.wakers.lock().unwrap();
                 let wakers = lock.get_mut();
                 let len = wakers.len();
                 wakers.push(None);
@@ -220,33 +218,21 @@ impl Manager {
     pub fn get_shutdown(&self, order: Ordering) -> bool {
         self.shutdown.load(order)
     }
-    /// # Safety
+    /// Registers the waker of the listener with `index`.
     ///
-    /// We know no other will have mutable access to self by taking `&self`.
-    /// We only write to a value in memory. If another thread also does so,
-    /// it does not matter which comes first. Also, only one thread should write to this
-    /// with the same `index`; this is not a problem since only the Kvarn crate has access to this.
-    /// This is also upheld by [`WakerIndex`].
-    ///
-    /// Also, the list never decreases in length, so the index will always be valid.
-    /// Unless it's extended when this is running. But since we initiate with the necessary
-    /// capacity (and not less), it **should** never expand.
+    /// The slots are shared with [`Self::shutdown`], which drains them from another thread,
+    /// so they are only touched with the lock held.
+    /// The list never decreases in length, so the index will always be valid.
     #[cfg(all(feature = "graceful-shutdown", feature = "async-networking"))]
     pub(crate) fn set_waker(&self, index: WakerIndex, waker: Waker) {
-        let inner = unsafe { &mut *self.wakers.get() };
-        let inner = inner.get_mut().unwrap();
-        let wakers = unsafe { &mut *inner.get() };
-        wakers[index.0] = Some(waker);
+        let mut lock = self.wakers.lock().unwrap();
+        lock.get_mut()[index.0] = Some(waker);
     }
-    /// # Safety
-    ///
-    /// See [`Self::set_waker`].
+    /// Clears the waker of the listener with `index`. See [`Self::set_waker`].
     #[cfg(all(feature = "graceful-shutdown", feature = "async-networking"))]
     pub(crate) fn remove_waker(&self, index: WakerIndex) {
-        let inner = unsafe { &mut *self.wakers.get() };
-        let inner = inner.get_mut().unwrap();
-        let wakers = unsafe { &mut *inner.get() };
-        wakers[index.0] = None;
+        let mut lock = self.wakers.lock().unwrap();
+        lock.get_mut()[index.0] = None;
     }
 
     /// Wraps [`Self`] in a [`Arc`] to use across [`tokio::task`]s.
@@ -297,7 +283,7 @@ impl Manager {
 
         // we stop listening immediately
         info!("Notifying wakers.");
-        unsafe { &*self.wakers.get() }.lock().unwrap().notify();
+        self.wakers.lock().unwrap().notify();
     }
     #[cfg(feature = "graceful-shutdown")]
     fn _shutdown(&self) {
